@@ -327,6 +327,16 @@ package schema
 //@   loop 0 invariant len(errs) >= old(len(errs)) && (sameArray(errs, old(errs)) || isfresh(errs))
 //@   loop 0 invariant iff(len(errs) > old(len(errs)), exists(j, 0, loopidx+1, choiceBad(keyset(cfg), sch_choice(nd, j))))
 
+// min-/max-elements of a list or leaf-list are checked on the node itself, whatever its number of entries (a
+// present but empty list included), before anything below it; a violation is the only error reported for the node.
+//@ func (Node).CheckCardinality
+//@   params p n
+//@   ensures result == sch_card_err(self, n)
+//@ func validateListSchema
+//@   requires c != nil
+//@   modifies *
+//@   ensures implies(sch_card_err(xn_schema(c), xn_nchildren(c)) != nil, !result2 && len(result1) == 1 && result1[0] == sch_card_err(xn_schema(c), xn_nchildren(c)))
+
 // The validator's view of a data node.
 //@ func (xnode).schema
 //@   nopanic
